@@ -550,3 +550,11 @@ def instances(tier):
     out.append(singular_bounded_instance(['rank-deficient'], 'numerically-rank-deficient'))
     out.append(singular_bounded_instance(['zero'], 'zero-or-exactly-singular', pinned=True))
     return out
+
+
+_instances_before_simplex = instances
+
+
+def instances(tier):       # noqa: F811
+    from .common import simplex_lemma_instances
+    return _instances_before_simplex(tier) + simplex_lemma_instances('C13')
